@@ -10,6 +10,13 @@ use std::panic::{catch_unwind, AssertUnwindSafe};
 pub trait ArenaItem: Default + Clone + 'static {
     fn mk(v: u64) -> Self;
     fn val(&self) -> u64;
+    /// arm "the next `Self::default()` panics"; false when the item type has no such fuse
+    fn arm_default_fuse() -> bool {
+        false
+    }
+}
+thread_local! {
+    static DEFAULT_FUSE: std::cell::Cell<bool> = const { std::cell::Cell::new(false) };
 }
 impl ArenaItem for u64 {
     fn mk(v: u64) -> Self {
@@ -20,14 +27,26 @@ impl ArenaItem for u64 {
     }
 }
 /// heap-owning item
-#[derive(Clone, Default)]
+#[derive(Clone)]
 pub struct HeapItem(Box<u64>, String);
+impl Default for HeapItem {
+    fn default() -> Self {
+        if DEFAULT_FUSE.with(|c| c.replace(false)) {
+            panic!("VERIF-FAULT: injected panic in HeapItem::default");
+        }
+        HeapItem(Box::new(0), String::new())
+    }
+}
 impl ArenaItem for HeapItem {
     fn mk(v: u64) -> Self {
         HeapItem(Box::new(v), format!("item-{}", v))
     }
     fn val(&self) -> u64 {
         *self.0
+    }
+    fn arm_default_fuse() -> bool {
+        DEFAULT_FUSE.with(|c| c.set(true));
+        true
     }
 }
 
@@ -120,6 +139,50 @@ impl<T: ArenaItem> ArenaMachine<T> {
                     self.fail(format!("{} {} changed the slot total", ws[0], id));
                 }
                 fmt_opt(got)
+            }
+            ["faultd", id] => {
+                // deallocate_with_default interrupted by a panic of `T::default()` (caught here, as a caller could):
+                // whatever is left must be a well-formed arena in which the handle is either still live or
+                // released exactly once.  (The code as it stands clears the mask bit and pushes the index before
+                // it takes the item, so the handle is released and the item stays in the slot: the effect of
+                // deallocate_no_return, which is what the model executes for this line.)
+                let Some(id) = Self::parse_id(id) else { return "bad-op".into() };
+                let was_live = self.live.contains_key(&id);
+                let faulted = if T::arm_default_fuse() {
+                    let r = catch_unwind(AssertUnwindSafe(|| self.arena.deallocate_with_default(id)));
+                    DEFAULT_FUSE.with(|c| c.set(false));
+                    r.is_err()
+                } else {
+                    self.arena.deallocate_no_return(id);
+                    was_live
+                };
+                if faulted != was_live {
+                    self.fail(format!("faultd {}: default() ran {} although the handle was {}", id, if faulted { "" } else { "not" }, if was_live { "live" } else { "not live" }));
+                }
+                self.live.remove(&id);
+                let still = self.arena.contains(id) || self.arena.get(id).is_some();
+                if still {
+                    self.fail(format!("faultd {}: after the interrupted release the handle still answers", id));
+                }
+                let problems: Vec<String> = {
+                    let (_, mask, free) = self.arena.verif_raw();
+                    let mut out = Vec::new();
+                    let mut seen = std::collections::HashSet::new();
+                    for &i in free.iter() {
+                        if mask.get(i).copied().unwrap_or(true) || !seen.insert(i) {
+                            out.push(format!("faultd {}: free list entry {} is live, out of range or listed twice", id, i));
+                        }
+                    }
+                    if (0..mask.len()).any(|i| !mask[i] && !seen.contains(&i)) {
+                        out.push(format!("faultd {}: an unallocated slot is missing from the free list", id));
+                    }
+                    out
+                };
+                for p in problems {
+                    self.fail(p);
+                }
+                self.check_counts();
+                if was_live { "fault".into() } else { "none".into() }
             }
             ["deallocn", id] => {
                 let Some(id) = Self::parse_id(id) else { return "bad-op".into() };
@@ -267,7 +330,7 @@ pub fn gen_case(rng: &mut Rng, len: usize, exec: &mut dyn FnMut(String) -> Strin
             format!("A alloc {}", next_val)
         } else if (in_fill && r < 60) || (!in_fill && r < 62) {
             let id = pick_id(rng, &issued);
-            let v = ["dealloc", "deallocd", "deallocn"][rng.below(3) as usize];
+            let v = ["dealloc", "deallocd", "deallocn", "dealloc", "deallocd", "deallocn", "faultd"][rng.below(7) as usize];
             format!("A {} {}", v, id)
         } else if r < 72 {
             format!("A get {}", pick_id(rng, &issued))
